@@ -209,6 +209,12 @@ PROPS = {
 }
 
 
+def _wrap_control(records):
+    body = [0, 8, 0, 0, 0, 0, 0, 6] + list(records)          # Message Type = Hello, then the records
+    n = 12 + len(body)
+    return [0x13, 0x20, (n >> 8) & 255, n & 255, 0, 1, 0, 2, 0, 3, 0, 4] + body
+
+
 def _host_of(n):
     return [(i * 7) % 256 for i in range(1, n + 1)]
 
@@ -235,8 +241,15 @@ def catalog_cases(prop, model, replay):
                     add({"op": "decode_suffix", "in": r["in"], "suffix": [n % 256, 7, 7], "opts": r["opts"], "entry": "validate"})
             elif mode == "avps":
                 add({"op": "decode_avps", "in": r["in"], "rdr": rdr})
+                if prop == "C10":
+                    # the same records inside a control message, behind a Message Type
+                    add({"op": "chain", "in": _wrap_control(r["in"]), "opts": [True, True, True]})
             elif mode == "payload":
                 add({"op": "decode_payload", "t": r["t"], "in": r["in"], "rdr": rdr})
+                if prop == "C10" and len(r["in"]) <= 1017:
+                    n = 6 + len(r["in"])
+                    rec = [((n >> 8) & 3) << 6 | 1, n & 255, 0, 0, (r["t"] >> 8) & 255, r["t"] & 255] + r["in"]
+                    add({"op": "chain", "in": _wrap_control(rec), "opts": [True, True, True]})
         elif model.startswith("enc_"):
             add({"op": "encode", "kind": r["kind"], "v": r["v"], "prefix": r["prefix"], "wr": "mon" if n % 2 else "vec"})
             if not r["prefix"]:
